@@ -2,16 +2,14 @@ from core import Unit as U
 HASH = ["secp256k1_sha256_write", "secp256k1_sha256_finalize"]
 GEN = ["secp256k1_ecmult_gen", "secp256k1_ge_set_gej"]
 S2C_REPL = ["secp256k1_ecdsa_sig_sign", "nonce_function_rfc6979_impl", "secp256k1_ec_commit_seckey"] + GEN
-import os, re
-# The retry loop of secp256k1_ecdsa_sign_inner writes the caller's tagged hash object *s2c_sha only while the code hands it directly to
-# secp256k1_ec_commit_seckey (the unfixed tree; see the finding behind obligation "C15 s2c_sign.retry").  Once the loop works on a per-attempt
-# copy (hooks/C15_FIX_s2c_sha_per_attempt.diff) the object is not written and must not be listed: a listed target is havoc'd at the loop head.
-_src = open(os.path.join(os.environ.get("VERIF_REPO", "/repo"), "src", "secp256k1.c"), errors="replace").read()
-_sha_written = re.search(r"secp256k1_ec_commit_seckey\(hash_ctx, &non, &nonce_p, s2c_sha,", _src) is not None
+# Retry loop of secp256k1_ecdsa_sign_inner in sign-to-contract mode.  *s2c_sha (the caller's tagged hash object) is always in the assigns clause;
+# the invariant keeps its identifying fields at their loop-entry values UNTIL the first commitment attempt (g_cs.used is the sticky "an
+# ec_commit_seckey call was made" flag of the contract log).  So the first commitment attempt is proved to start from the midstate
+# (unsuppressed obligation), and only a later attempt - possible only after a core-signer failure, finding F3 - sees an unconstrained object.
 SIGN_LOOP_S2C = {"secp256k1_ecdsa_sign_inner": {"while (1)": {
-    "assigns": "ret, count, non, __CPROVER_object_whole(nonce32), *r, *s; recid != NULL: *recid; s2c_opening != NULL: *s2c_opening; "
-               + ("s2c_sha != NULL: *s2c_sha; " if _sha_written else "") + "verif_nonce_calls, g_nf, g_ss, g_cs, g_genl, g_sgl",
-    "invariants": "count == verif_nonce_calls"}}}
+    "assigns": "ret, count, non, __CPROVER_object_whole(nonce32), *r, *s; recid != NULL: *recid; s2c_opening != NULL: *s2c_opening; s2c_sha != NULL: *s2c_sha; verif_nonce_calls, g_nf, g_ss, g_cs, g_genl, g_sgl",
+    "invariants": "count == verif_nonce_calls && (g_cs.used == 0 || g_cs.used == 1) && ((g_cs.used == 0 && s2c_sha != NULL) ==> "
+                  "(s2c_sha->s[0] == __CPROVER_loop_entry(s2c_sha->s[0]) && s2c_sha->s[7] == __CPROVER_loop_entry(s2c_sha->s[7]) && s2c_sha->bytes == __CPROVER_loop_entry(s2c_sha->bytes)))"}}}
 # signer_commit: "once a nonce was accepted, k is a non-zero reduced scalar whose byte g_nk is the byte logged by the most recent RFC 6979 call"
 SIGNER_LOOP = {"secp256k1_ecdsa_anti_exfil_signer_commit": {"while (!is_nonce_valid)": {
     "assigns": "count, is_nonce_valid, k, __CPROVER_object_whole(nonce32); verif_nonce_calls, g_nf",
